@@ -286,6 +286,9 @@ def run(ctx, host=None):
         chk.ok(R2, aso.qualname, norm(src), detail='key of the writer whose handle received the bytes')
     else:
         chk.bad(R2, aso.qualname, norm(rets[-1]), 'add_streamed_object does not return the key of the writer it wrote through', where=f'{aso.module.relpath}:{rets[-1].lineno}')
+    # a key is handed back only if the new loose file really was published (shared with C09.R1)
+    from .c09 import publish_handlers
+    publish_handlers(ctx, chk, R2)
     # direct path: one key per stream (IterMachine of C09.R4, reported here as C01.R2)
     q = 'container:Container.add_streamed_objects_to_pack'
     fnq = prog.fn(q)
